@@ -7,7 +7,7 @@ D = '/tmp/mrepo_alt'
 
 def main():
     only = sys.argv[1:]
-    inc = os.path.join(VERIF, 'seeded', '_incoming')
+    inc = os.path.join(VERIF, 'seeded', os.environ.get('SEEDED_INC', '_incoming'))
     for P in sorted(os.listdir(inc)):
         if only and P not in only:
             continue
